@@ -25,8 +25,8 @@ pub fn contract_octet_to_bits<C: Ctx>(cx: &mut C) {
 /// C07 unit 3 — `bit_string_to_octet_string` on concrete lengths with symbolic contents:
 /// Err exactly when the length is not a multiple of 8; otherwise byte j = sum bit[8j+i]*2^(7-i).
 /// bounded: lengths listed in BIT_LENGTHS.
-const BIT_LENGTHS_QUICK: &[usize] = &[0, 1, 7, 8, 9];
-const BIT_LENGTHS_THOROUGH: &[usize] = &[15, 16, 17, 24];
+const BIT_LENGTHS_QUICK: &[usize] = &[0, 8, 9];
+const BIT_LENGTHS_THOROUGH: &[usize] = &[1, 7, 15, 16, 17, 24];
 pub fn contract_bits_to_octets<C: Ctx>(cx: &mut C) { contract_bits_to_octets_lens(cx, BIT_LENGTHS_QUICK) }
 pub fn contract_bits_to_octets_long<C: Ctx>(cx: &mut C) { contract_bits_to_octets_lens(cx, BIT_LENGTHS_THOROUGH) }
 fn contract_bits_to_octets_lens<C: Ctx>(cx: &mut C, lens: &[usize]) {
@@ -34,10 +34,11 @@ fn contract_bits_to_octets_lens<C: Ctx>(cx: &mut C, lens: &[usize]) {
     while li < lens.len() {
         let len = lens[li];
         cx.note("len", len);
-        let mut bits: Vec<bool> = Vec::with_capacity(len);
+        let mut store = [false; 24];
         let mut i = 0;
-        while i < len { bits.push(cx.any_bool()); i += 1; }
-        let r = bit_string_to_octet_string(&bits);
+        while i < len { store[i] = cx.any_bool(); i += 1; }
+        let bits: &[bool] = &store[..len];
+        let r = bit_string_to_octet_string(bits);
         vob!(cx, "C07.bits_to_octets.err_iff_not_multiple_of_8", r.is_err() == (len % 8 != 0));
         if let Ok(oct) = r {
             vob!(cx, "C07.bits_to_octets.one_octet_per_8_bits", oct.len() == len / 8);
@@ -53,7 +54,7 @@ fn contract_bits_to_octets_lens<C: Ctx>(cx: &mut C, lens: &[usize]) {
             vob!(cx, "C07.bits_to_octets.msb_first_value", ok);
             if ok {
                 let back = octet_string_to_bit_string(&oct);
-                vob!(cx, "C07.bits_to_octets.round_trip", back == bits);
+                vob!(cx, "C07.bits_to_octets.round_trip", back.as_slice() == bits);
             }
         }
         li += 1;
@@ -65,5 +66,5 @@ mod kani_harness {
     use super::*;
     #[kani::proof] #[kani::unwind(10)] fn k_c07_octet_to_bits() { contract_octet_to_bits(&mut KaniCtx) }
     #[kani::proof] #[kani::unwind(11)] fn k_c07_bits_to_octets() { contract_bits_to_octets(&mut KaniCtx) }
-    #[kani::proof] #[kani::unwind(26)] fn k_c07_bits_to_octets_long() { contract_bits_to_octets_long(&mut KaniCtx) }
+    #[kani::proof] #[kani::unwind(26)] fn k_c07_long_bits_to_octets() { contract_bits_to_octets_long(&mut KaniCtx) }
 }
